@@ -326,6 +326,7 @@ def tri_kind():
 def repeat_list(ip, item, n):
     """[x] * n for a symbolic n"""
     nt = ops.term(n, 'int')
+    ip.state.events.append(('alloc', (ops.concretize(Sym(z3.If(nt > 0, nt, z3.IntVal(0)), 'int')),), {}))     # ghost: size of the allocation
     if item is None:
         s = SymSeq(z3.K(IntSort, z3.IntVal(-1)), z3.If(nt > 0, nt, z3.IntVal(0)), tri_kind())
         if 'nonecount' in MEASURES:
@@ -1406,6 +1407,8 @@ def _strip_model(kind):
             return OPAQUE_STR
         used(ip, 'str.%s: SOME string obtained by removing a (possibly empty) run of characters at the end(s)' % kind)
         t = ops.term(s)
+        if t.sort() != StrSort:
+            return Sym(ip.ctx.fresh(kind + 'ped', t.sort()), 'str')      # opaque string sort: some string
         r = ip.ctx.fresh(kind + 'ped', StrSort)
         pre = ip.ctx.fresh('pre', StrSort)
         post = ip.ctx.fresh('post', StrSort)
